@@ -330,6 +330,17 @@ def general_models(tier):
             out.append(_general_model(advan, ["DEPOT", "CENTRAL"], {}, form, True, des=True,
                                       des_lines=["DADT(1) = -KA*A(1)", "DADT(2) = KA*A(1) - CL/V*A(2) - VM*A(2)/(KM + A(2))"],
                                       extra=[("KA", 0.9), ("CL", 1.1), ("V", 15.0), ("VM", 6.0), ("KM", 30.0)]))
+            # a transfer between two compartments written as several additive first-order terms / in factored form
+            out.append(_general_model(advan, ["DEPOT", "CENTRAL"], {}, form, True, des=True,
+                                      des_lines=["DADT(1) = -KA*A(1) - KB*A(1)", "DADT(2) = KA*A(1) + KB*A(1) - KE*A(2)"],
+                                      extra=[("KA", 0.9), ("KB", 0.35), ("KE", 0.14)]))
+            out.append(_general_model(advan, ["DEPOT", "CENTRAL"], {}, form, True, des=True,
+                                      des_lines=["DADT(1) = -(KA + KB)*A(1)", "DADT(2) = (KA + KB)*A(1) - KE*A(2)"],
+                                      extra=[("KA", 0.9), ("KB", 0.35), ("KE", 0.14)]))
+            out.append(_general_model(advan, ["CENTRAL", "PERI"], {}, form, True, des=True,
+                                      des_lines=["DADT(1) = -KE*A(1) - Q1/V1*A(1) - Q2/V1*A(1) + Q1/V2*A(2) + Q2/V2*A(2)",
+                                                 "DADT(2) = Q1/V1*A(1) + Q2/V1*A(1) - Q1/V2*A(2) - Q2/V2*A(2)"],
+                                      extra=[("KE", 0.14), ("Q1", 1.2), ("Q2", 0.4), ("V1", 15.0), ("V2", 30.0)]))
     return out
 
 
